@@ -38,6 +38,24 @@ CHECKS["C05"] = dict(
     note="Trusted: signature and AEAD primitives. Adversarial steps are judged with virtual time frozen. Honest 32-bit "
          "circuit-id collisions are not engineered.")
 
+CHECKS["C06"] = dict(
+    category="exploration", design_ref="DESIGN.md 2/C06",
+    technique="bounded-exhaustive differential test of the policy predicate against a reference policy + PBT of the emission path on a simulated exit",
+    text="is_allowed of a real exit socket is compared with a reference policy over an exhaustive grid of classifier-relevant "
+         "header bytes x lengths x flag sets; Hypothesis-drawn cases push allowed and forbidden payloads in both directions "
+         "through a real circuit to a real TunnelExitSocket on a recording transport (IPv4/IPv6/domain/null destinations, "
+         "first data cell from the previous hop or from elsewhere). Exhaustive only over the stated grid.",
+    note="Trusted: the reference policy transcribed from the classifier docstrings; name resolution table of the virtual loop.")
+CHECKS["C19"] = dict(
+    category="fault_enumeration", design_ref="DESIGN.md 2/C19",
+    technique="crash-point enumeration: child process SIGKILLs itself at every database event / SQL statement; fresh reopen judged against an fsync'd ack log",
+    text="Scripted workloads: every crash point (before/after each execute / executescript / commit / connect, and before "
+         "every SQL statement incl. those inside the schema script) is exercised exhaustively; Hypothesis-drawn workloads "
+         "with drawn crash points add variety. After the kill a fresh process-independent reopen checks openability, "
+         "presence and byte-equality of acknowledged records, absence of partial records and pseudonym verification.",
+    note="SIGKILL models process death, not power loss (OS page cache assumed durable; synchronous level invisible). "
+         "Kills inside a single SQLite statement are left to SQLite's own atomicity.")
+
 PENDING = {}
 
 def main():
